@@ -218,8 +218,61 @@ pub fn handle(op: &str, a: &[&str]) -> Option<String> {
         ("i.trailing_zeros", [x]) => opt_n(parse_i(x)?.trailing_zeros()),
         ("u.trailing_ones", [x]) => ok_n(parse_u(x)?.trailing_ones()),
         ("u.count_ones", [x]) => ok_n(parse_u(x)?.count_ones()),
+        // bit queries on HUGE operands given run-length encoded (`digit*count,digit*count,…`, least significant
+        // first): counters kept in a type narrower than u64 only fail beyond 2^32 bits
+        ("u.huge", [q, segs]) => {
+            let v = parse_rl(segs)?;
+            match *q {
+                "count_ones" => ok_n(v.count_ones()),
+                "bits" => ok_n(v.bits()),
+                "trailing_zeros" => opt_n(v.trailing_zeros()),
+                "trailing_ones" => ok_n(v.trailing_ones()),
+                _ => {
+                    let k: u64 = q.strip_prefix("bit:")?.parse().ok()?;
+                    ok_b(v.bit(k))
+                }
+            }
+        }
+        ("i.huge", [q, sg, segs]) => {
+            let m = parse_rl(segs)?;
+            let sign = match *sg {
+                "-" => num_bigint::Sign::Minus,
+                "+" => num_bigint::Sign::Plus,
+                _ => return None,
+            };
+            let v = BigInt::from_biguint(sign, m);
+            match *q {
+                "bits" => ok_n(v.bits()),
+                "trailing_zeros" => opt_n(v.trailing_zeros()),
+                _ => return None,
+            }
+        }
         _ => return None,
     })
+}
+
+/// `digit*count,…` (hex digit, decimal count; at most 2^28 digits in total) → the canonical value
+fn parse_rl(s: &str) -> Option<BigUint> {
+    let mut total: u64 = 0;
+    let mut segs = vec![];
+    for t in s.split(',') {
+        let (d, n) = t.split_once('*')?;
+        let d = u64::from_str_radix(d, 16).ok()?;
+        let n: u64 = n.parse().ok()?;
+        total = total.checked_add(n)?;
+        segs.push((d, n));
+    }
+    if total > 1 << 28 {
+        return None;
+    }
+    let mut w: Vec<u32> = Vec::with_capacity(2 * total as usize);
+    for (d, n) in segs {
+        for _ in 0..n {
+            w.push(d as u32);
+            w.push((d >> 32) as u32);
+        }
+    }
+    Some(BigUint::new(w))
 }
 
 #[allow(dead_code)]
